@@ -943,7 +943,7 @@ def threads_classify(line, impl, mobs, extra):
 def c04_streams(tier, seed):
     c = tok_classifier("C04", has_tokens)
     if tier == "quick":
-        return [(["tok", "c04", str(seed), "300"], c), (["threads", str(seed), "5"], threads_classify)]
+        return [(["tok", "c04", str(seed), "300"], c), (["threads", str(seed), "8"], threads_classify)]
     return [(["tok", "c04", str(seed), "10000"], c), (["threads", str(seed), "300"], threads_classify)]
 
 
